@@ -123,7 +123,7 @@ func newCore() *core {
 	cdc := &regCodec{}
 	k := corekeeper.NewKeeper(cdc, vp.StoreKey("tibc"), nil, authority)
 	k.ClientKeeper.SetChainName(ctx, w.self)
-	n := vp.Choice("nclients", 3)
+	n := vp.Choice("nclients", vp.Bound(3, 4))
 	for i := 0; i < n; i++ {
 		c := name("client")
 		vp.Assume(c != w.self) // invariant: a chain keeps no light client of itself
